@@ -199,6 +199,16 @@ def r2(cx, chk, cfg, F):
                     chk.violation("C11.R2", "w-store|" + fn["q"], "%s assigns w := %s; w may only be incremented by one (try_reset) or zeroed together with the doorkeeper and the sketch" % (fn["q"], fmt_val(v)),
                                   fn["span"]["file"], e.get("ln"), fn["q"], None, cfg)
                 cur = v
+    # an explicit try_reset call counts towards the sample window (the property's wording): every path of try_reset increments w first
+    ftr = F.find(T + "::try_reset")
+    for p in cx.paths(cfg, ftr["path"], policy=Shallow(), tag="shallow"):
+        st = [e for e in p.events if e["ev"] == "store" and e["loc"] == ("H", SELF, ("w",))]
+        if not st or st[0]["val"] != ("bin", "Add", W0, ("const", "usize", "1")):
+            chk.violation("C11.R2", "try_reset|no-count", "a path of TinyLFU::try_reset does not count the call (w := w + 1 is not its first write of w): explicit try_reset calls no longer advance the sample window",
+                          ftr["span"]["file"], ftr["span"]["lo"], ftr["q"], None, cfg)
+            break
+    else:
+        chk.ob("C11.R2", cfg + ":try_reset-counts", "every path of try_reset starts by w := w + 1")
     have = set(k for ks in kinds.values() for k in ks)
     for need in ("inc", "zero+reset", "zero+clear"):
         if need in have:
